@@ -203,6 +203,23 @@ PROPS = {
         note="pointers with a '~' not followed by 0 or 1 are syntactically invalid in RFC 6901; their (lenient) handling is not compared; array set beyond the end follows C07 (null gaps)",
         assumptions=COMMON_ASSUMPTIONS,
     ),
+    "C13": dict(
+        level="model_checking",
+        runs=[dict(harness="c13", variant="san", shards=16)],
+        deadline=dict(quick=420, thorough=3000),
+        rule="(a) 10 target documents (nested containers, names needing escapes, '', nulls as member and element, prefix-like sibling names a/ab/'a/b') x every sequence of operations up to "
+             "the length bound from a menu regenerated from the document as evolved by the reference: {add,replace,remove,test,move,copy} x path in {pointer of every node, every container "
+             "+ new name / escaped new name / - / index len / len+1, 3 malformed} x 4 values x from in every node pointer (+ absent); both calling conventions; (b) full product of "
+             "15 op values x 9 path values x 3 value x 7 from values (absent, null, numbers, booleans, containers, strings) as a one-element patch and after a valid element, non-object elements, "
+             "non-array patches, argument-shape errors; non-trivial = distinct (patch, calling convention)",
+        bound=dict(quick="sequences of length <= 2", thorough="sequences of length <= 3 with the reduced menu (2 values, every other from)"),
+        states_stat="cases", transitions_stat="calls",
+        technique="exhaustive enumeration of patch operation sequences over evolving documents on the real json_patch code (ASan build, crash isolated), RFC 6902 interpreter over the value model as oracle",
+        claim="for every enumerated (document, patch) success/failure, the failing index and the resulting document equal sequential RFC 6902 evaluation; the patch document is unchanged; "
+              "values added or copied are independent of their source (mutation probe); malformed patches produce an error, never a crash, leak or invalid access",
+        note="document contents after a failed patch, removal of the whole document and pointers with invalid '~' escapes are not compared (unspecified by the statement)",
+        assumptions=COMMON_ASSUMPTIONS,
+    ),
 }
 
 NOT_APPLICABLE = {}
